@@ -87,6 +87,16 @@ def gen(rng, tier):
                 if sk < 0.85 else ['list', [['sidof', rng.randrange(npeers)]
                                             for _ in range(2)]]
             ops.append(['emit', via(), ns, to, skip])
+        elif k < 0.77:
+            # an application task that emits and, without yielding in
+            # between, changes the membership (emit 'bye' then leave the
+            # room / disconnect the client / close the room)
+            tk = rng.random()
+            to = None if tk < 0.2 else room()
+            then = rng.choice([['leave', p, room()], ['disc', p],
+                               ['close', room()]])
+            ops.append(['emit_then', rng.randrange(nhosts), ns, to, None,
+                        then])
         elif k < 0.86:
             ops.append(['emit_cb', rng.randrange(nhosts), p, ns])
         elif k < 0.95:
@@ -302,6 +312,55 @@ def _run(case, cfg, w):
             if any(owner_host.get(s) != vh for s in recips):
                 nontrivial = True
                 stats['cross_host_emits'] += 1
+        elif k == 'emit_then':
+            _, hi, ns, to_s, skip_s, then = op
+            to = res_target(to_s, ns)
+            skip = res_target(skip_s, ns)
+            srv_h = hosts[hi]
+            tk = then[0]
+            if tk in ('leave', 'disc'):
+                tsid = sc.sid(then[1], ns)
+                if not tsid:
+                    continue
+            n_emit += 1
+            tag = 'E%d' % n_emit
+            recips = set(model.recipients(ns, to, skip))
+            n_log = len(bus.log)
+            if tk == 'leave':
+                troom = res_room(then[2], ns)
+                second = (srv_h.leave_room, (tsid, troom), {'namespace': ns})
+            elif tk == 'disc':
+                second = (srv_h.disconnect, (tsid,), {'namespace': ns})
+            else:
+                troom = res_room(then[1], ns)
+                second = (srv_h.close_room, (troom,), {'namespace': ns})
+            if is_async:
+                async def both(second=second):
+                    await srv_h.emit('ev', tag, to=to, skip_sid=skip,
+                                     namespace=ns)
+                    await second[0](*second[1], **second[2])
+            else:
+                def both(second=second):
+                    srv_h.emit('ev', tag, to=to, skip_sid=skip, namespace=ns)
+                    second[0](*second[1], **second[2])
+            w.call(both, _label=('emit_then', tk))
+            w.settle(horizon=0.0)
+            idx = n_log if len(bus.log) > n_log else None
+            lo = min([m[0] for m in pending_mops] + [snap_before] +
+                     ([taint[0]] if taint[0] is not None else []))
+            emits[tag] = {'ns': ns, 'to': to, 'skip': skip, 'via': hi,
+                          'expect': recips, 'eligible': set(recips),
+                          'raced': False, 'index': idx, 'done': False,
+                          'where': where, 'lo': lo, 'end': None}
+            if tk == 'leave':
+                model.leave(tsid, ns, troom)
+            elif tk == 'disc':
+                sc.forget(then[1], ns)
+                model.disconnect(tsid, ns)
+            else:
+                model.close(ns, troom)
+            stats['emit_then_membership_change'] = stats.get(
+                'emit_then_membership_change', 0) + 1
         elif k == 'emit_cb':
             _, hi, p, ns = op
             sid = sc.sid(p, ns)
@@ -330,7 +389,7 @@ def _run(case, cfg, w):
             drain()
         else:
             w.settle(horizon=0.0)
-        if k in ('enter', 'leave', 'close', 'disc', 'connect'):
+        if k in ('enter', 'leave', 'close', 'disc', 'connect', 'emit_then'):
             if pending_mops and taint[0] is None:
                 # a membership change issued while another one is still in
                 # flight: the hosts may apply the two in either order (a
